@@ -1220,6 +1220,8 @@ EXT["numpy.minimum"] = _np_minimum
 def _np_cumsum(ex, args, kwargs, node):
     v = _arr(ex, args[0], node)
     ax = _axis(kwargs, args, 1)
+    if v.cond is None and ex.as_nf(v, node).is_zero():
+        return Num(NF.const(0), v.shape, v.dtype)
     r = ex.mk("cumsum", ex.as_nf(v, node), ax if ax is not None else "flat", shape=v.shape, dtype=v.dtype)
     r.meta["cumsum_of"] = v
     return r
